@@ -22,11 +22,6 @@ ranges non-inverted, `$` only at the tail of rules and right contexts):
 namespace Lexgen
 variable {σ τ ε : Type}
 
-/-- the run-time configuration of a compiled definition -/
-def Compiled.config (c : Compiled) (actions : Nat → Action σ τ ε) (width : Nat → Nat) (input : Option (List Nat)) :
-    Config σ τ ε :=
-  { dfa := c.dfa, ctxs := c.ctxs, entries := c.entries, actions := actions, width := width, input := input }
-
 theorem compileLexer_machineOK (items : LexerDef) (c : Compiled) (h : compileLexer items = .ok c) (hok : DefOK items)
     (actions : Nat → Action σ τ ε) (width : Nat → Nat) (input : Option (List Nat)) :
     MachineOK (c.config actions width input) :=
@@ -101,11 +96,6 @@ theorem coreRules_ctx_range (rs : List RuleOrBinding) : ∀ (b : Bindings) (k : 
                 · have := ih b (k + 1) l cl hrest hrest2 r hr' i hi
                   simp only [List.length_cons]
                   omega
-
-/-- the entry state of a rule set in the final machine: the named entry, or state 0 for a definition
-without rule sets -/
-def IsEntryOf (items : LexerDef) (c : Compiled) (name : String) (e : Nat) : Prop :=
-  if hasRuleSets items then (name, e) ∈ c.entries else e = 0
 
 theorem allRuleSets_named {items : LexerDef} (h : hasRuleSets items = true) :
     allRuleSets items = scopedRuleSets items [] 0 := by
